@@ -162,6 +162,13 @@ def _yields_in(st):
 def _const_of(node):
     if isinstance(node, ast.Constant):
         return ("c", node.value)
+    # empty displays have a known truth value (and `x == []` style tests are not folded: only truthiness is used)
+    if isinstance(node, ast.Tuple) and not node.elts:
+        return ("c", ())
+    if isinstance(node, (ast.List, ast.Set)) and not node.elts:
+        return ("m", ())       # mutable: forgotten as soon as the name is handed to a call or stored through
+    if isinstance(node, ast.Dict) and not node.keys:
+        return ("m", ())
     return None
 
 
@@ -169,8 +176,37 @@ def _truth(cv):
     return bool(cv[1])
 
 
+def _forget_mutated(env, node):
+    """An empty list/dict/set bound to a name stays empty only until something may fill it: the name used as the receiver
+    or an argument of a call, or as the root of a subscript/attribute store."""
+    if not any(v[0] == "m" for v in env.values()):
+        return
+    for n in ast.walk(node):
+        names = []
+        if isinstance(n, ast.Call):
+            parts = list(n.args) + [k.value for k in n.keywords]
+            if isinstance(n.func, ast.Attribute):
+                parts.append(n.func.value)
+            for a in parts:
+                names.extend(x.id for x in ast.walk(a) if isinstance(x, ast.Name))
+        elif isinstance(n, (ast.Subscript, ast.Attribute)) and isinstance(n.ctx, (ast.Store, ast.Del)):
+            r = A.root_name(n)
+            if r:
+                names.append(r)
+        elif isinstance(n, (ast.Yield, ast.YieldFrom, ast.Return)) and n.value is not None:
+            names.extend(x.id for x in ast.walk(n.value) if isinstance(x, ast.Name))
+        elif isinstance(n, ast.Assign):
+            # aliasing: y = x lets y fill x
+            if isinstance(n.value, ast.Name):
+                names.append(n.value.id)
+        for nm in names:
+            if nm in env and env[nm][0] == "m":
+                del env[nm]
+
+
 def _update_env(env, st):
     """Track `name = <constant>`; forget a name on any other store to it."""
+    _forget_mutated(env, st)
     if isinstance(st, ast.Assign) and len(st.targets) == 1 and isinstance(st.targets[0], ast.Name):
         cv = _const_of(st.value)
         if cv is not None:
@@ -253,6 +289,10 @@ def _facts_consistent(facts, test, outcome):
         pol = pol if p2 else (not pol)
         if isinstance(e, ast.BoolOp) or not _pure_atom(e):
             continue
+        if isinstance(e, ast.Compare) and len(e.ops) == 1 and isinstance(e.ops[0], (ast.IsNot, ast.NotEq, ast.NotIn)):
+            flip = {ast.IsNot: ast.Is, ast.NotEq: ast.Eq, ast.NotIn: ast.In}[type(e.ops[0])]
+            e = ast.Compare(left=e.left, ops=[flip()], comparators=e.comparators)
+            pol = not pol
         key = A.src(e)
         old = facts.get(key)
         if old is not None and old[0] != pol:
@@ -331,6 +371,7 @@ class Enumerator(object):
         if self.prune and not _feasible(p.env, test, outcome):
             return None
         q = p.plus(("cond", test, outcome))
+        _forget_mutated(q.env, test)
         if self.prune:
             # calls inside the test itself may change things
             _invalidate_facts(q.facts, test)
@@ -357,6 +398,7 @@ class Enumerator(object):
         if isinstance(st, (ast.With, ast.AsyncWith)):
             q = p.plus(("with", st))
             for it in st.items:
+                _forget_mutated(q.env, it.context_expr)
                 _invalidate_facts(q.facts, it.context_expr)
                 if it.optional_vars is not None:
                     _invalidate_facts(q.facts, it.optional_vars)
@@ -409,6 +451,7 @@ class Enumerator(object):
             one = self.branch(base, st.test, True) if not forever else base.plus(("cond", st.test, True))
         else:
             one = p.plus(("iter", st))
+            _forget_mutated(one.env, st.iter)
             for nm in A.target_names(st.target):
                 one.env.pop(nm, None)
             _invalidate_facts(one.facts, st.target)
@@ -453,6 +496,7 @@ class Enumerator(object):
                 # after further iterations anything assigned in the loop may differ
                 for bst in st.body:
                     _invalidate_facts(qq.facts, bst)
+                    _forget_mutated(qq.env, bst)
                 if forever:
                     qq.end = "loop"
                     out.append(qq)
